@@ -9,7 +9,10 @@ package main
 
 import (
 	"fmt"
+	"math"
 	"math/rand"
+	"os"
+	"strconv"
 	"strings"
 )
 
@@ -2130,6 +2133,632 @@ func init() {
 				mode := r.Intn(3)
 				p, doc, kinds := c15StoreSequence(r, mode, steps, chance(r, 0.3))
 				c15Emit(emit, p, doc, "mode", fmt.Sprint(mode), "steps", fmt.Sprint(steps), "rhs_kinds", fmt.Sprint(len(kinds)))
+			}
+		},
+	})
+}
+
+// ---------------------------------------------------------------- extreme indices
+//
+// "a[-k] addresses the k-th element from the end and an index before the start is an
+// error": for EVERY index value, also the ones whose conversion to a Go int leaves the
+// range in which the usual arithmetic on indices is safe (-2^63, whose negation is
+// itself; NaN, the infinities and everything beyond +-2^63, which int(f) turns into
+// -2^63 on amd64; +-2^31 / 2^32 / 2^53 / 2^62; -0 and fractional indices, which truncate
+// toward zero). The expected text is written out from an ideal list with the index
+// resolved as k = int(f); k < 0 => k += length; k < 0 => error.
+
+// Go's int(f) on amd64 (CVTTSD2SQ): truncation; NaN and everything out of range give -2^63
+func c15GoInt(f float64) int64 {
+	if f != f || f >= 9223372036854775808.0 || f < -9223372036854775808.0 {
+		return math.MinInt64
+	}
+	return int64(f)
+}
+
+// an index value: f = mul*length + off (mul = 0: an absolute value), with further ways to
+// write exactly that value down (alt: program text, altDoc: JSON number text read through $.i)
+type c15IxSpec struct {
+	mul     int
+	off     float64
+	extreme bool // int(f) is -2^63 or near the ends of the int range
+	alt     []string
+	altDoc  []string
+}
+
+// one way to write an index value down
+type c15Ix struct {
+	text string  // the index expression
+	f    float64 // its value
+	doc  string  // JSON number text of member "i" of the document when the expression reads $.i
+	form string
+}
+
+func c15FmtF(f float64) string { return strconv.FormatFloat(f, 'f', -1, 64) }
+func c15FmtG(f float64) string { return strconv.FormatFloat(f, 'g', -1, 64) }
+
+// a literal for f (unary minus applied to a digits(.digits)? literal); "" when there is none
+func c15Lit(f float64) string {
+	if f != f || math.IsInf(f, 0) {
+		return ""
+	}
+	s := c15FmtF(math.Abs(f))
+	if len(s) > 330 {
+		return ""
+	}
+	if math.Signbit(f) {
+		return "-" + s
+	}
+	return s
+}
+
+// the value of a jqawk numeric literal / numeric string
+func c15Parse(s string) float64 {
+	f, err := strconv.ParseFloat(s, 64)
+	if err != nil && !math.IsInf(f, 0) {
+		panic("c15Parse: " + s)
+	}
+	return f
+}
+
+// every way the family writes the value of spec down, for an array named A of length n
+func c15IxForms(sp c15IxSpec, A string, n int) []c15Ix {
+	var out []c15Ix
+	if sp.mul != 0 {
+		base, text := float64(n), A+".length()"
+		if sp.mul < 0 {
+			base, text = -base, "-"+A+".length()"
+		}
+		f := base + sp.off
+		switch {
+		case sp.off > 0:
+			text += " + " + c15Lit(sp.off)
+		case sp.off < 0:
+			text += " - " + c15Lit(-sp.off)
+		}
+		out = append(out, c15Ix{text: text, f: f, form: "length"})
+		if l := c15Lit(f); l != "" {
+			out = append(out, c15Ix{text: l, f: f, form: "lit"})
+			out = append(out, c15Ix{text: "$.i", f: f, doc: c15FmtG(f), form: "doc-g"})
+		}
+		return out
+	}
+	f := sp.off
+	nan, inf := f != f, math.IsInf(f, 0)
+	if l := c15Lit(f); l != "" {
+		out = append(out, c15Ix{text: l, f: f, form: "lit"},
+			c15Ix{text: "0 + " + l, f: f, form: "computed"},
+			c15Ix{text: l + " * 1", f: f, form: "computed"},
+			c15Ix{text: l + " / 1", f: f, form: "computed"},
+			c15Ix{text: "$.i", f: f, doc: c15FmtG(f), form: "doc-g"})
+		if len(l) < 40 {
+			out = append(out, c15Ix{text: "$.i", f: f, doc: c15FmtF(f), form: "doc-f"})
+		}
+	}
+	var names []string
+	switch {
+	case nan:
+		names = []string{"nan", "NaN"}
+		out = append(out, c15Ix{text: `-"nan"`, f: f, form: "negstr"}, c15Ix{text: `num("inf") - num("inf")`, f: f, form: "computed"}, c15Ix{text: `0 * num("-inf")`, f: f, form: "computed"})
+	case inf && f > 0:
+		names = []string{"inf", "+Inf", "Infinity"}
+		out = append(out, c15Ix{text: `-"-inf"`, f: f, form: "negstr"}, c15Ix{text: `num("1e308") * 10`, f: f, form: "computed"})
+	case inf:
+		names = []string{"-inf", "-Inf", "-Infinity"}
+		out = append(out, c15Ix{text: `-"inf"`, f: f, form: "negstr"}, c15Ix{text: `-num("1e308") * 10`, f: f, form: "computed"})
+	default:
+		names = []string{c15FmtG(f)}
+		out = append(out, c15Ix{text: `-"` + c15FmtG(-f) + `"`, f: f, form: "negstr"})
+	}
+	for _, nm := range names {
+		out = append(out, c15Ix{text: `num("` + nm + `")`, f: f, form: "num"}, c15Ix{text: `+"` + nm + `"`, f: f, form: "plusstr"})
+	}
+	for _, a := range sp.alt {
+		out = append(out, c15Ix{text: a, f: f, form: "alt"})
+	}
+	for _, d := range sp.altDoc {
+		out = append(out, c15Ix{text: "$.i", f: f, doc: d, form: "doc-alt"})
+	}
+	return out
+}
+
+func c15IxSpecs() []c15IxSpec {
+	p63 := 9223372036854775808.0
+	abs := func(extreme bool, fs ...float64) []c15IxSpec {
+		var l []c15IxSpec
+		for _, f := range fs {
+			l = append(l, c15IxSpec{off: f, extreme: extreme})
+		}
+		return l
+	}
+	specs := []c15IxSpec{
+		{off: -p63, extreme: true,
+			alt:    []string{"-9223372036854775807 - 1", "0 - 9223372036854775808", "-4611686018427387904 * 2", "-9223372036854775809", "-9223372036854775808.5", "-(9223372036854775807)", "-2147483648 * 4294967296"},
+			altDoc: []string{"-9223372036854775809", "-9.223372036854775808e18", "-9223372036854775808.0", "-9223372036854775808.9", "-9223372036854775807", "-92233720368547758080E-1"}},
+		{off: p63, extreme: true,
+			alt:    []string{"4611686018427387904 * 2", "9223372036854775807", "9223372036854775807 + 1", "2147483648 * 4294967296"},
+			altDoc: []string{"9223372036854775807", "9.223372036854775808E+18", "9223372036854775808.0"}},
+		{off: -1e19, extreme: true, alt: []string{"-10000000000 * 1000000000", "-9223372036854775808 - 776627963145224192"}, altDoc: []string{"-1e19", "-1E+19", "-10000000000000000000.0"}},
+		{off: 1e19, extreme: true, alt: []string{"10000000000 * 1000000000"}, altDoc: []string{"1e19"}},
+		{off: -1e300, extreme: true, altDoc: []string{"-1e300", "-1.0E300"}},
+		{off: 1e300, extreme: true, altDoc: []string{"1e300"}},
+	}
+	specs = append(specs, abs(true, -p63-2048, p63+2048, -math.MaxFloat64, math.MaxFloat64, math.Inf(-1), math.Inf(1), math.NaN(),
+		-p63+1024, p63-1024, -p63+2048, -p63/2, p63/2, -18446744073709551616.0, 18446744073709551616.0, -18446744073709551615.0)...)
+	specs = append(specs, abs(false, -9007199254740992, 9007199254740992, -9007199254740993, -4294967296, 4294967296, -4294967297, 4294967297, -4294967295, 4294967295,
+		-2147483648, 2147483648, -2147483649, 2147483647, -65537, 1048577, -1048577,
+		c15NegZero(), 0, 5e-324, -5e-324, 0.5, -0.5, -0.999999, 0.999, 1, -1, -1.5, 1.5, 2, -2, 2.9, -2.9, 3, -3, -3.9, 4, -4, -4.5, 5, -5, 7, -7)...)
+	for _, off := range []float64{0, -1, 1, -0.5, -1.5, 0.5, -2, -p63} {
+		specs = append(specs, c15IxSpec{mul: -1, off: off, extreme: off == -p63})
+	}
+	for _, off := range []float64{0, -1, 1, 2, 0.5, -0.5, p63} {
+		specs = append(specs, c15IxSpec{mul: 1, off: off, extreme: off == p63})
+	}
+	return specs
+}
+
+// a history that leaves an array behind: the initial elements and the operations applied to it
+type c15IxHist struct {
+	init []int
+	ops  []string // "push <v>", "pop", "popfirst"
+}
+
+var c15IxHists = []c15IxHist{
+	{nil, nil},
+	{[]int{11}, nil},
+	{[]int{11, 22, 33}, nil},
+	{[]int{11, 22, 33}, []string{"push 44", "popfirst"}},
+	{[]int{11}, []string{"pop"}},
+	{[]int{11}, []string{"popfirst"}},
+	{nil, []string{"push 11"}},
+	{[]int{11, 22, 33, 44, 55}, []string{"pop", "popfirst"}},
+	{[]int{11, 22}, []string{"popfirst", "popfirst", "push 33"}},
+	{nil, []string{"pop", "push 11", "push 22", "push 33"}},
+	{[]int{11, 22, 33}, []string{"popfirst", "popfirst", "popfirst", "popfirst"}},
+}
+
+func c15IxRandomHist(r *rand.Rand) c15IxHist {
+	var h c15IxHist
+	for i, n := 0, r.Intn(5); i < n; i++ {
+		h.init = append(h.init, 11*(i+1))
+	}
+	for i, n := 0, r.Intn(9); i < n; i++ {
+		switch r.Intn(4) {
+		case 0, 1:
+			h.ops = append(h.ops, fmt.Sprintf("push %d", 60+i))
+		case 2:
+			h.ops = append(h.ops, "pop")
+		default:
+			h.ops = append(h.ops, "popfirst")
+		}
+	}
+	return h
+}
+
+func (h c15IxHist) result() []int {
+	l := append([]int{}, h.init...)
+	for _, op := range h.ops {
+		switch {
+		case op == "pop":
+			if len(l) > 0 {
+				l = l[:len(l)-1]
+			}
+		case op == "popfirst":
+			if len(l) > 0 {
+				l = l[1:]
+			}
+		default:
+			v, _ := strconv.Atoi(strings.TrimPrefix(op, "push "))
+			l = append(l, v)
+		}
+	}
+	return l
+}
+
+func c15IntList(l []int) string {
+	parts := make([]string, len(l))
+	for i, v := range l {
+		parts[i] = strconv.Itoa(v)
+	}
+	return "[" + strings.Join(parts, ", ") + "]"
+}
+
+var c15IxOps = []string{"read", "param", "var", "write", "wprint", "pwrite", "cadd", "cmul", "incr", "csub", "pushread", "contains", "readm", "cond", "jsonf", "mcall", "member", "nested"}
+
+const c15IxLocs = 7
+
+const c15IxFuncs = "function g(v, i) { return v[i] }\nfunction st(v, i) { v[i] = 7 }\n"
+
+// c15IxProgram writes the program for one operation on the array a history leaves at
+// location loc, the index written as ix and carried to the brackets in way wrap, and the
+// outcome an ideal list gives: class, output ("?" = not predicted, the model decides) and
+// whether the error (if any) is "before the start".
+func c15IxProgram(h c15IxHist, loc int, sp c15IxSpec, pickForm func(n int) int, wrap int, op string) (prog, doc, class, out string, before bool, ix c15Ix) {
+	lit := c15IntList(h.init)
+	list, items, m := "[1]", "[1]", "[1]"
+	var setup []string
+	A, F := "a", "a"
+	switch loc {
+	case 0:
+		setup = append(setup, "a = "+lit)
+	case 1:
+		list, A, F = lit, "$.list", "$.list"
+	case 2:
+		items, A, F = lit, "$.o.items", "$.o.items"
+	case 3:
+		setup = append(setup, "w = ["+lit+", 5]")
+		A, F = "w[0]", "w[0]"
+	case 4:
+		setup = append(setup, "a = "+lit, "h = {r: a}")
+		A, F = "h.r", "a"
+	case 5:
+		m, A, F = lit, "$.m[0]", "$.m[-2]"
+	default:
+		list = lit
+		setup = append(setup, "b = $.list")
+		A, F = "b", "$.list"
+	}
+	for _, o := range h.ops {
+		if strings.HasPrefix(o, "push ") {
+			setup = append(setup, A+".push("+strings.TrimPrefix(o, "push ")+")")
+		} else {
+			setup = append(setup, A+"."+o+"()")
+		}
+	}
+	l := h.result()
+	n := len(l)
+	forms := c15IxForms(sp, A, n)
+	ix = forms[pickForm(len(forms))%len(forms)]
+	I := ix.text
+	var pre []string
+	switch wrap {
+	case 1:
+		pre, I = []string{"n = " + ix.text}, "n"
+	case 2:
+		pre, I = []string{"q = {k: " + ix.text + "}"}, "q.k"
+	case 3:
+		pre, I = []string{"q = [0, " + ix.text + "]"}, "q[-1]"
+	case 4:
+		I = "(" + ix.text + ")"
+	}
+	var body []string
+	switch op {
+	case "read":
+		body = []string{`print "R", ` + A + "[" + I + "]"}
+	case "param":
+		body = []string{`print "R", g(` + A + ", " + I + ")"}
+	case "var":
+		body = []string{"x = " + A + "[" + I + "]", `print "R", x`}
+	case "write":
+		body = []string{A + "[" + I + "] = 7"}
+	case "wprint":
+		body = []string{`print "R", (` + A + "[" + I + "] = 7)"}
+	case "pwrite":
+		body = []string{"st(" + A + ", " + I + ")"}
+	case "cadd":
+		body = []string{A + "[" + I + "] += 5"}
+	case "incr":
+		body = []string{A + "[" + I + "]++"}
+	case "csub":
+		body = []string{A + "[" + I + "] -= 5"}
+	case "cmul":
+		body = []string{A + "[" + I + "] *= 2"}
+	case "jsonf":
+		body = []string{`print "R", json(` + A + "[" + I + "])"}
+	case "mcall":
+		body = []string{`print "R", ` + A + "[" + I + "].floor()"}
+	case "pushread":
+		body = []string{`print "R", ` + A + ".push(" + A + "[" + I + "])"}
+	case "contains":
+		body = []string{`print "R", ` + A + ".contains(" + A + "[" + I + "])"}
+	case "readm":
+		body = []string{`print "R", ` + A + "[" + I + "].x"}
+	case "cond":
+		body = []string{"if (" + A + "[" + I + `]) { print "R", "t" } else { print "R", "f" }`}
+	case "member":
+		body = []string{A + "[" + I + "].x = 1"}
+	case "nested":
+		body = []string{A + "[" + I + "][0] = 1"}
+	}
+	lines := append(append(append(append([]string{}, setup...), `print "s"`), pre...), body...)
+	lines = append(lines, `print "e", `+F+", "+F+".length()")
+	prog = c15IxFuncs + "{\n  " + strings.Join(lines, "\n  ") + "\n}\n"
+	di := "0"
+	if ix.doc != "" {
+		di = ix.doc
+	}
+	doc = `{"i": ` + di + `, "list": ` + list + `, "o": {"items": ` + items + `}, "m": [` + m + `, 5]}`
+
+	// the ideal list
+	k := c15GoInt(ix.f)
+	if k < 0 {
+		k += int64(n)
+	}
+	if k < 0 {
+		return prog, doc, "runtime", "s\n", true, ix
+	}
+	el := make([]string, n)
+	for i, v := range l {
+		el[i] = strconv.Itoa(v)
+	}
+	show := func() string { return "[" + strings.Join(el, ", ") + "] " + strconv.Itoa(len(el)) }
+	in := k < int64(n)
+	res := ""
+	store := func(val func(old int) int) bool {
+		if k > 1024*1024 {
+			return false
+		}
+		old := 0
+		if in {
+			old = l[k]
+		}
+		for int64(len(el)) <= k {
+			el = append(el, "null")
+		}
+		el[k] = strconv.Itoa(val(old))
+		return true
+	}
+	switch op {
+	case "read", "param", "var":
+		res = "null"
+		if in {
+			res = el[k]
+		}
+	case "readm":
+		res = "null"
+	case "cond":
+		res = "f"
+		if in {
+			res = "t"
+		}
+	case "contains":
+		res = "false"
+		if in {
+			res = "true"
+		}
+	case "pushread":
+		if in {
+			el = append(el, el[k])
+		} else {
+			el = append(el, "null")
+		}
+		res = "[" + strings.Join(el, ", ") + "]"
+	case "write", "pwrite", "wprint":
+		if !store(func(int) int { return 7 }) {
+			return prog, doc, "runtime", "s\n", false, ix
+		}
+		if op == "wprint" {
+			res = "7"
+		}
+	case "cadd":
+		if !store(func(o int) int { return o + 5 }) {
+			return prog, doc, "runtime", "s\n", false, ix
+		}
+	case "incr":
+		if !store(func(o int) int { return o + 1 }) {
+			return prog, doc, "runtime", "s\n", false, ix
+		}
+	case "csub":
+		if !store(func(o int) int { return o - 5 }) {
+			return prog, doc, "runtime", "s\n", false, ix
+		}
+	case "cmul":
+		if !store(func(o int) int { return o * 2 }) {
+			return prog, doc, "runtime", "s\n", false, ix
+		}
+	case "jsonf", "mcall":
+		if !in {
+			return prog, doc, "?", "?", false, ix // json / a method of a missing element: the model decides
+		}
+		res = el[k]
+	default: // member, nested: a member of a number / of a new element: the model decides
+		if k > 1024*1024 {
+			return prog, doc, "runtime", "s\n", false, ix
+		}
+		return prog, doc, "?", "?", false, ix
+	}
+	out = "s\n"
+	if res != "" {
+		out += "R " + res + "\n"
+	}
+	out += "e " + show() + "\n"
+	return prog, doc, "ok", out, false, ix
+}
+
+// the oracle of an extreme-index case: never a panic; the class and output of the ideal
+// list; an index before the start is reported as "index out of range"
+func c15IxOracle(class, out string, before bool) func(Resp) string {
+	return func(i Resp) string {
+		if i["class"] == "panic" {
+			return "the interpreter panicked instead of reporting a runtime error: " + short(i["msg"])
+		}
+		if class == "?" {
+			return ""
+		}
+		if i["class"] != class {
+			return fmt.Sprintf("ideal list: class %s expected, implementation says %s (msg %s)", class, i["class"], i["msg"])
+		}
+		if got := string(i.Bytes("out")); got != out {
+			return fmt.Sprintf("output differs from the ideal list: %s", c09FirstDiff(got, out))
+		}
+		if before && !strings.Contains(i["msg"], "index_out_of_range") {
+			return "an index before the start must be reported as 'index out of range', got: " + i["msg"]
+		}
+		return ""
+	}
+}
+
+var c15IxFields = []string{"class", "out", "line", "col"}
+
+func c15IxEmit(emit func(Case), h c15IxHist, loc int, sp c15IxSpec, pickForm func(int) int, wrap int, op string, stats map[string]int) {
+	prog, doc, class, out, before, ix := c15IxProgram(h, loc, sp, pickForm, wrap, op)
+	row := "in-range"
+	switch {
+	case c15GoInt(ix.f) == math.MinInt64:
+		row = "int(f)=-2^63"
+	case sp.extreme:
+		row = "near the int limits"
+	case before:
+		row = "before the start"
+	}
+	stats[ix.form]++
+	emit(Case{Req: RunReq(prog, nil, []File{{Name: "in.json", Data: []byte(doc)}}, false), Fields: c15IxFields,
+		Meta:   metaProg(prog, "input", doc, "index", c15FmtG(ix.f), "form", ix.form, "op", op, "ideal_class", class, "row", row, "col", op),
+		Oracle: c15IxOracle(class, out, before), NonTrivial: c09NT})
+}
+
+// index reads and writes on strings: never an error for a read (a character or null), always one for a write
+func c15IxStringEmit(emit func(Case), r *rand.Rand, s string, sp c15IxSpec, pickForm func(int) int, op string) {
+	S, doc := "s", `{"i": 0, "s": `+jsonString(s)+`}`
+	setup := "s = \"" + s + "\""
+	if chance(r, 0.4) {
+		S, setup = "$.s", `t = "t"`
+	}
+	forms := c15IxForms(sp, S, len(s))
+	ix := forms[pickForm(len(forms))%len(forms)]
+	if ix.doc != "" {
+		doc = `{"i": ` + ix.doc + `, "s": ` + jsonString(s) + `}`
+	}
+	var body, class, out string
+	k := c15GoInt(ix.f)
+	switch op {
+	case "sread":
+		body = `print "R", ` + S + "[" + ix.text + "]"
+		res := "null"
+		if k >= 0 && k < int64(len(s)) {
+			res = s[k : k+1]
+		}
+		class, out = "ok", "s\nR "+res+"\ne "+s+"\n"
+	case "sreadvar":
+		body = "n = " + ix.text + "\n  c = " + S + "[n]\n  print \"R\", c, c.length()"
+		res := "null"
+		if k >= 0 && k < int64(len(s)) {
+			res = s[k:k+1] + " 1"
+			class, out = "ok", "s\nR "+res+"\ne "+s+"\n"
+		} else {
+			class, out = "?", "?" // a method of null: the model decides
+		}
+	default: // swrite
+		body = S + "[" + ix.text + "] = 1"
+		class, out = "runtime", "s\n"
+	}
+	prog := "{\n  " + setup + "\n  print \"s\"\n  " + body + "\n  print \"e\", " + S + "\n}\n"
+	emit(Case{Req: RunReq(prog, nil, []File{{Name: "in.json", Data: []byte(doc)}}, false), Fields: c15IxFields,
+		Meta:   metaProg(prog, "input", doc, "index", c15FmtG(ix.f), "form", ix.form, "op", op, "ideal_class", class, "row", "string", "col", op),
+		Oracle: c15IxOracle(class, out, false), NonTrivial: c09NT})
+}
+
+// the index inside a root selector ($.list[i] given on the command line): before the start =
+// the same runtime error, else the element (or null past the end) is the one record
+func c15IxSelEmit(emit func(Case), l []int, sp c15IxSpec, pickForm func(int) int) {
+	forms := c15IxForms(sp, "$.list", len(l))
+	ix := forms[pickForm(len(forms))%len(forms)]
+	di := "0"
+	if ix.doc != "" {
+		di = ix.doc
+	}
+	doc := `{"i": ` + di + `, "list": ` + c15IntList(l) + `}`
+	sel := "$.list[" + ix.text + "]"
+	prog := "{ print \"r\", $ }\nEND { print \"end\" }\n"
+	k := c15GoInt(ix.f)
+	if k < 0 {
+		k += int64(len(l))
+	}
+	class, out := "ok", "r null\nend\n"
+	switch {
+	case k < 0:
+		class, out = "runtime", ""
+	case k < int64(len(l)):
+		out = "r " + strconv.Itoa(l[k]) + "\nend\n"
+	}
+	emit(Case{Req: RunReq(prog, []string{sel}, []File{{Name: "in.json", Data: []byte(doc)}}, false), Fields: c15IxFields,
+		Meta:   metaProg(prog, "selector", sel, "input", doc, "index", c15FmtG(ix.f), "form", ix.form, "op", "selector", "ideal_class", class, "row", "selector", "col", "selector"),
+		Oracle: c15IxOracle(class, out, k < 0), NonTrivial: c09NT})
+}
+
+// through the real binary: an index before the start ends the run with exit status 1 and
+// jqawk's own diagnostic, never with a Go panic (exit status 2 and a goroutine trace)
+func c15IxCli(emit func(Case), h c15IxHist, loc int, sp c15IxSpec, pickForm func(int) int, wrap int, op string) {
+	prog, doc, class, out, before, ix := c15IxProgram(h, loc, sp, pickForm, wrap, op)
+	emit(Case{Req: CliReq([]string{prog, "in.json"}, nil, false, []CliFile{{Name: "in.json", Data: []byte(doc)}}, ""), Fields: c14CliFields, NonTrivial: c14NT,
+		Meta: metaProg(prog, "input", doc, "index", c15FmtG(ix.f), "form", ix.form, "op", op, "ideal_class", class, "row", "binary", "col", op),
+		Oracle: func(i Resp) string {
+			if w := c14Basic(i); w != "" {
+				return w
+			}
+			if i["exit"] == "" || class == "?" {
+				return ""
+			}
+			want := "0"
+			if class == "runtime" {
+				want = "1"
+			}
+			if i["exit"] != want {
+				return fmt.Sprintf("ideal list: exit status %s expected, the binary ended with %s: %s", want, i["exit"], short(string(i.Bytes("stderr"))))
+			}
+			if got := string(i.Bytes("out")); got != out {
+				return fmt.Sprintf("output differs from the ideal list: %s", c09FirstDiff(got, out))
+			}
+			if before && !strings.Contains(string(i.Bytes("stderr")), "index out of range") {
+				return "an index before the start must be reported as 'index out of range', stderr: " + short(string(i.Bytes("stderr")))
+			}
+			return ""
+		}})
+}
+
+func init() {
+	register(Family{
+		Name: "extreme-indices", Prop: "C15",
+		Rule: "one index operation (read, read through a parameter / into a variable, write, printed write, write through a parameter, +=, -=, *=, ++, push(a[i]), contains(a[i]), a[i].x, if (a[i]), json(a[i]), a[i].floor(), a[i].x = 1, a[i][0] = 1) on the array that a push/pop/popfirst history leaves behind (11 fixed histories ending in lengths 0, 1, 3 incl. re-sliced and emptied backing arrays, and random ones) at 7 locations (variable, $.list, $.o.items, w[0], object member alias, $.m[0], variable alias of a document member), with the index drawn from: -2^63, 2^63, +-1e19, +-1e300, +-MaxFloat64, +-Inf, NaN, +-2^63+-2048, +-2^64, +-2^62, +-2^53, +-2^32+-1, +-2^31+-1, 1048577, -0, 0, +-5e-324, fractional and small integers either side of zero, and values relative to the length (-len, -len-1, -len+1, -len-0.5, -len-1.5, len, len+-1, len+-0.5, -len-2^63, len+2^63); each value written as a literal, computed (0 + x, x * 1, x / 1, -9223372036854775807 - 1, 0 - 2^63, -2^62 * 2, products, inf - inf, 1e308 * 10, -a.length() - 1), read from the document ($.i, several JSON spellings incl. ones that round to -2^63), num(\"...\") (inf/nan spellings), -\"...\" and +\"...\"; carried to the brackets directly, through a variable, an object member, an array element, parentheses; the same on strings of length 0, 1, 3 (read: a character or null, write: an error); the index inside a root selector $.list[i]; a sample through the real binary (exit status 1 with the 'index out of range' diagnostic, never a panic / exit status 2). Oracle: an ideal list with k = int(f) (Go on amd64: truncation, NaN / out of range = -2^63), k < 0 => k += len, k < 0 => 'index out of range' runtime error after the output so far, never class panic; also compared with the model (class, out, line, col); matrix row = kind of index, column = operation; non-trivial = distinct program ending ok or in a runtime error",
+		Gen: func(r *rand.Rand, tier string, emit func(Case)) {
+			specs := c15IxSpecs()
+			stats := map[string]int{}
+			random := func(n int) int { return r.Intn(n) }
+			thorough := tier == "thorough"
+			for si, sp := range specs {
+				hists := append([]c15IxHist{}, c15IxHists...)
+				for i, n := 0, tierN(tier, 2, 8); i < n; i++ {
+					hists = append(hists, c15IxRandomHist(r))
+				}
+				for _, h := range hists {
+					for _, op := range c15IxOps {
+						// quick: every operation for the values at the int limits, a sample for the others
+						if !thorough && !chance(r, map[bool]float64{true: 0.55, false: 0.25}[sp.extreme]) {
+							continue
+						}
+						c15IxEmit(emit, h, r.Intn(c15IxLocs), sp, random, r.Intn(5), op, stats)
+					}
+				}
+				// every way of writing the value down (thorough: with every operation)
+				nf := len(c15IxForms(sp, "a", 3))
+				for fi := 0; fi < nf; fi++ {
+					fi := fi
+					fixed := func(int) int { return fi }
+					ops := []string{pick(r, c15IxOps), pick(r, []string{"read", "write"})}
+					if thorough {
+						ops = c15IxOps
+					}
+					for _, op := range ops {
+						c15IxEmit(emit, pick(r, hists), r.Intn(c15IxLocs), sp, fixed, r.Intn(5), op, stats)
+					}
+				}
+				for _, s := range []string{"", "a", "abc"} {
+					for _, op := range []string{"sread", "sreadvar", "swrite"} {
+						if thorough || sp.extreme || chance(r, 0.4) {
+							c15IxStringEmit(emit, r, s, sp, random, op)
+						}
+					}
+				}
+				for _, l := range [][]int{nil, {11}, {11, 22, 33}} {
+					if thorough || sp.extreme || chance(r, 0.4) {
+						c15IxSelEmit(emit, l, sp, random)
+					}
+				}
+				if os.Getenv("JQAWK_BIN") != "" && (sp.extreme || thorough || si%6 == 0) {
+					for _, op := range []string{"read", "write"} {
+						c15IxCli(emit, pick(r, hists), r.Intn(c15IxLocs), sp, random, r.Intn(5), op)
+					}
+				}
 			}
 		},
 	})
